@@ -5,6 +5,7 @@ from vt.pair import Pair, outcome
 from vt.refs import iana, kdf, sym, ossl
 
 from tlslite.constants import CipherSuite
+from tlslite import errors as E
 
 LEVEL = "exploration"
 RULE = ("every suite id in CipherSuite.ietfNames x every protocol version x "
@@ -50,6 +51,30 @@ def make_cases(ctx):
             for etm, init in variants:
                 yield "%04x-%d%d-e%d-%s" % (sid, ver[0], ver[1], etm, init), \
                     dict(sid=sid, ver=ver, etm=etm, init=init)
+    # servers holding several key pairs of different types: the suite's
+    # authentication type must follow the key pair actually used
+    for ver in ((3, 3), (3, 2), (3, 4)):
+        for dflt, extra in (("rsa", "ecdsa256"), ("ecdsa256", "rsa"),
+                            ("rsa", "ed25519"), ("ecdsa384", "rsa"),
+                            ("rsa", "dsa"), ("dsa", "rsa")):
+            for pref in ("extra", "default"):
+                yield "multi-%d%d-%s-%s-%s" % (ver[0], ver[1], dflt, extra,
+                                               pref), dict(
+                    multi=[dflt, extra, pref], ver=ver, etm=True, init="c",
+                    sid=None)
+    # a ServerHello that names a suite the negotiated version does not
+    # define (the client offered it for another version)
+    for real, cname, foreign in ((0x1301, "aes128gcm", 0xC02F),
+                                 (0x1301, "aes128gcm", 0x009C),
+                                 (0x1302, "aes256gcm", 0xC030),
+                                 (0x1303, "chacha20-poly1305", 0xCCA8),
+                                 (0x1301, "aes128gcm", 0x002F)):
+        yield "foreign13-%04x" % foreign, dict(foreign=[real, cname, foreign],
+                                               ver=(3, 4))
+    for foreign in (0x1301, 0x1302, 0x1303):
+        for ver in ((3, 3), (3, 1)):
+            yield "foreign12-%04x-%d" % (foreign, ver[1]), dict(
+                foreign=[None, None, foreign], ver=ver)
     yield "names-table", dict(table=True)
 
 
@@ -195,21 +220,125 @@ def verify_13(su, secret, rec, seqs=range(0, 8)):
     return None
 
 
+def multi_flavor(P, ver):
+    from vt import creds
+    from vt.pair import Flavor, ver_settings
+    from tlslite.handshakesettings import VirtualHost, Keypair
+    dflt, extra, pref = P["multi"]
+    if ver < (3, 3) and "ed25519" in (dflt, extra):
+        return None
+    if ver == (3, 4) and "dsa" in (dflt, extra):
+        return None
+    fam = {"rsa": "rsa", "ecdsa256": "ecdsa", "ecdsa384": "ecdsa",
+           "ed25519": "eddsa", "dsa": "dsa"}
+    # the client's signature algorithms admit only one of the two key types
+    want = extra if pref == "extra" else dflt
+    ckw = {}
+    if fam[want] != "rsa":
+        ckw["rsaSigHashes"] = []
+    if fam[want] != "ecdsa":
+        ckw["ecdsaSigHashes"] = []
+    if fam[want] != "dsa":
+        ckw["dsaSigHashes"] = []
+    if fam[want] != "eddsa":
+        ckw["more_sig_schemes"] = []
+    try:
+        cs = ver_settings(ver, **ckw)
+        ss = ver_settings(ver)
+        cs.validate()
+    except ValueError:
+        return None
+    chain, key = creds.server(extra)
+    vh = VirtualHost()
+    vh.keys = [Keypair(key, tuple(chain.x509List))]
+    ss.virtual_hosts = [vh]
+    return Flavor("cert", skey=dflt, cset=cs, sset=ss)
+
+
+def run_foreign(ctx, cid, P):
+    """key-holding server whose ServerHello carries a suite id that the
+    negotiated version does not define"""
+    from vt import adv
+    from vt.pair import Flavor, settings
+    real, cname, foreign = P["foreign"]
+    ver = tuple(P["ver"])
+    cs = settings(minVersion=(3, 1), maxVersion=(3, 4))
+    skw = dict(minVersion=ver, maxVersion=ver)
+    if cname:
+        skw["cipherNames"] = [cname]
+    ss = settings(**skw)
+    fl = Flavor("cert", skey="rsa", cset=cs, sset=ss)
+    p = Pair()
+    st = {}
+
+    def rw(i, t, msg, raw):
+        if t == 2 and not st.get("done"):
+            h = wire.parse_server_hello(raw[4:])
+            if h.is_hrr:
+                return None
+            st["done"] = True
+            st["was"] = h.suite
+            h.suite = foreign
+            return [adv.Raw(22, wire.hs_msg(2, wire.ser_server_hello(h)))]
+        return None
+    adv.Deviant(p.s, rw)
+    tc, ts = p.handshake(fl)
+    ctx.ev()
+    if not st.get("done"):
+        ctx.count("foreign_not_reached")
+        return
+    ctx.count("foreign_suite_hellos")
+    fsu = suites.TABLE.get(foreign)
+    key = {"suite": fsu.name if fsu else hex(foreign),
+           "ver": pair.VNAME[ver], "adversarial": True}
+    W = {"case": cid, "outcome": [outcome(tc), outcome(ts)],
+         "server_really_selected": st.get("was")}
+    if tc.status == "done":
+        ctx.violation(dict(key, clause="suite_in_undefined_version"), W,
+                      "client completed a %s handshake whose ServerHello "
+                      "selected %s" % (pair.VNAME[ver], key["suite"]))
+    elif not (tc.status == "exc" and isinstance(tc.exc, E.TLSLocalAlert)):
+        ctx.violation(dict(key, clause="foreign_suite_not_rejected_by_client",
+                           got=str(outcome(tc))), W,
+                      "client went on after the ServerHello: %r" % (tc.exc,))
+    else:
+        ctx.count("foreign_suite_rejected")
+    ctx.cell("foreign", "%s|%s|%s" % (pair.VNAME[ver], key["suite"],
+                                     outcome(tc)))
+
+
 def run_case(ctx, cid, P):
+    if P.get("foreign"):
+        return run_foreign(ctx, cid, P)
     if P.get("table"):
         return run_table(ctx)
     sid, ver, etm, init = P["sid"], tuple(P["ver"]), P["etm"], P["init"]
-    su = suites.TABLE[sid]
-    if not su.negotiable:
-        ctx.count("not_implemented")
-        return
-    try:
-        fl = suites.flavor_for(sid, ver,
-                               cset_kw=dict(useEncryptThenMAC=etm),
-                               sset_kw=dict(useEncryptThenMAC=etm))
-    except Exception as e:   # noqa
-        ctx.count("config_rejected")
-        return
+    if P.get("multi"):
+        fl = multi_flavor(P, ver)
+        if fl is None:
+            ctx.count("multi_config_rejected")
+            return
+        ctx.count("multi_key_servers")
+
+        class _Any(object):
+            name = "(any)"
+
+            @staticmethod
+            def defined_for(v):
+                return True
+        su = _Any()
+    else:
+        su = suites.TABLE[sid]
+        if not su.negotiable:
+            ctx.count("not_implemented")
+            return
+        try:
+            fl = suites.flavor_for(sid, ver,
+                                   cset_kw=dict(useEncryptThenMAC=etm),
+                                   sset_kw=dict(useEncryptThenMAC=etm))
+        except Exception as e:   # noqa
+            ctx.count("config_rejected")
+            return
     p = Pair()
     tc, ts = p.handshake(fl)
     ctx.ev()
@@ -407,6 +536,36 @@ def run_case(ctx, cid, P):
             ctx.violation(dict(key, clause="decrypted_stream_differs"), W, "")
             return
     else:
+        # the whole TLS 1.3 key schedule runs on the hash in the suite name:
+        # every secret has that hash's length, and the exporter follows
+        # RFC 8446 7.5 under that hash from the exporter master secret
+        hl = kdf.dlen(su.prf)
+        for end, conn in (("client", p.c), ("server", p.s)):
+            se = conn.session
+            for nm in ("cl_app_secret", "sr_app_secret",
+                       "exporterMasterSecret", "resumptionMasterSecret"):
+                v = getattr(se, nm, None)
+                if v is not None and len(v) and len(v) != hl:
+                    ctx.violation(dict(key, clause="prf_hash_secret_length",
+                                       field=nm), dict(W, end=end),
+                                  "%s.%s is %d bytes, %s prescribes %s (%d)"
+                                  % (end, nm, len(v), su.name, su.prf, hl))
+            try:
+                got_e = bytes(conn.keyingMaterialExporter(
+                    bytearray(b"EXPORTER-vt-c20"), 40))
+                ref_e = kdf.tls13_exporter(
+                    su.prf, bytes(se.exporterMasterSecret),
+                    b"EXPORTER-vt-c20", b"", 40)
+                ctx.ev()
+                ctx.count("exporters_recomputed")
+                if got_e != ref_e:
+                    ctx.violation(dict(key, clause="prf_hash_exporter"),
+                                  dict(W, end=end),
+                                  "keyingMaterialExporter differs from RFC "
+                                  "8446 7.5 under %s" % su.prf)
+            except Exception as e:   # noqa
+                ctx.violation(dict(key, clause="exporter_raises",
+                                   exc=type(e).__name__), W, repr(e))
         secret = p.c.session.cl_app_secret if init == "c" else \
             p.c.session.sr_app_secret
         got = bytearray()
